@@ -215,6 +215,11 @@ func (p *Program) assignsModSet(u *Universe, c *Contract) *ModSet {
 	for _, v := range fv {
 		ms.add(v, 1)
 	}
+	for _, src := range c.RowAssignSrc {
+		if so := p.rowAssignSort(u, c, src); so != "" {
+			ms.add(u.elemVar(so), 2)
+		}
+	}
 	return ms
 }
 
@@ -691,3 +696,29 @@ func (p *Program) expandAssigns(u *Universe, classes []string) (vars []string, a
 }
 
 func (p *Program) noteGlobalRead(g *ssa.Global) {}
+
+// rowAssignSort: element sort of an assigns_rows expression, from the declared field type
+// (the expression is a chain of field selections ending in a slice-typed field).
+func (p *Program) rowAssignSort(u *Universe, c *Contract, src string) Sort {
+	parts := strings.Split(src, ".")
+	last := parts[len(parts)-1]
+	var found Sort
+	for _, n := range p.allNamed {
+		st, ok := n.Underlying().(*types.Struct)
+		if !ok || n.Obj().Pkg() == nil || !inModule(n.Obj().Pkg()) {
+			continue
+		}
+		for i := 0; i < st.NumFields(); i++ {
+			if st.Field(i).Name() == last {
+				if sl, ok := st.Field(i).Type().Underlying().(*types.Slice); ok {
+					so := u.sortOf(sl.Elem())
+					if found != "" && found != so {
+						return found
+					}
+					found = so
+				}
+			}
+		}
+	}
+	return found
+}
